@@ -8,6 +8,8 @@ N1  ``return next((e for x in D if c), default)``           ->  ``for x in D: if
 N2  a list comprehension that calls a helper which must be run in place (a private helper or local closure with
     statement effects / loops)                              ->  the accumulator loop it abbreviates
 N4  ``for x in X: acc.append(x)``                               ->  ``acc.extend(X)``
+N11 ``v = functools.reduce(f, X, init)``                          ->  ``v = init; for x in X: v = f(v, x)``
+N10 ``list(<map/filter/chain/generator pipeline that runs package code>)`` and loops over such pipelines  ->  the loop nest
 N9  ``it = iter(X); while (v := next(it, S)) is not S: body``   ->  ``for v in X: body`` (S a fresh ``object()``)
 N8  ``match s: case P if g: ...``                               ->  the if / elif chain (class / sequence / literal / capture / or patterns)
 N7  ``for x in _private_generator(..): body``                    ->  the generator's body with ``x = <yielded>; body`` at every yield
@@ -197,6 +199,11 @@ class _Ctx:
             unfolded = self._generator_loop(st)
             if unfolded is not None:
                 return self.block(unfolded)
+            if not getattr(st, "_qcl_plain", False) and not st.orelse and not isinstance(self._deref(st.iter), ast.GeneratorExp) and self._is_pipeline(self._deref(st.iter)) and self._needs_unfold(st.iter) \
+                    and not any(isinstance(n, ast.Break) for b in st.body for n in ast.walk(b)):
+                nest = self._loops_for(st.iter, lambda x: [ast.Assign(targets=[st.target], value=x)] + list(st.body), st)
+                if nest is not None:
+                    return self.block(nest)
             mapped = self._mapped_loop(st)
             if mapped is not None:
                 return self.stmt(mapped)
@@ -246,6 +253,30 @@ class _Ctx:
             nx = self._next_form(value)
             if nx is not None and isinstance(st, (ast.Return, ast.Assign, ast.AnnAssign)):
                 return self.block(self._desugar_next(st, *nx))
+            # N11 --------------------------------------------------------------------------------
+            if isinstance(st, (ast.Return, ast.Assign, ast.AnnAssign)) and isinstance(value, ast.Call) and self._callee(value).split(".")[-1] == "reduce" \
+                    and len(value.args) == 3 and not value.keywords:
+                acc = self.tmp()
+                x = self.tmp()
+                step = self._apply2(value.args[0], ast.Name(id=acc, ctx=ast.Load()), ast.Name(id=x, ctx=ast.Load()))
+                init = ast.Assign(targets=[ast.Name(id=acc, ctx=ast.Store())], value=value.args[2])
+                loop = ast.For(target=ast.Name(id=x, ctx=ast.Store()), iter=value.args[1],
+                               body=[ast.Assign(targets=[ast.Name(id=acc, ctx=ast.Store())], value=step)], orelse=[])
+                fin = copy.copy(st)
+                fin.value = ast.Name(id=acc, ctx=ast.Load())
+                out = [init, loop, fin]
+                for n in out:
+                    for m in ast.walk(n):
+                        if not hasattr(m, "lineno"):
+                            ast.copy_location(m, st)
+                    ast.fix_missing_locations(n)
+                return self.block(out)
+            # N10 --------------------------------------------------------------------------------
+            if isinstance(st, (ast.Return, ast.Assign, ast.AnnAssign)) and isinstance(value, ast.Call) and isinstance(value.func, ast.Name) \
+                    and value.func.id in ("list", "tuple") and len(value.args) == 1 and not value.keywords and self._needs_unfold(value.args[0]):
+                des = self._desugar_collect(st, value.args[0])
+                if des is not None:
+                    return self.block(des)
             # N2 ---------------------------------------------------------------------------------
             if isinstance(value, ast.ListComp) and self._has_helper_call(value) and isinstance(st, (ast.Return, ast.Assign, ast.AnnAssign)):
                 return self.block(self._desugar_listcomp(st, value))
@@ -285,6 +316,138 @@ class _Ctx:
                  any(isinstance(t, ast.Name) and t.id == name for t in (n.targets if isinstance(n, ast.Assign) else [n.target]))]
         params = {a.arg for a in ast.walk(self.root) if isinstance(a, ast.arg)}
         return bool(binds) and name not in params and all(isinstance(b.value, (ast.List, ast.ListComp)) for b in binds)
+
+    # -- N10 ------------------------------------------------------------------------------------------
+    def _deref(self, e: ast.expr) -> ast.expr:
+        """a local name bound once to an iterator pipeline and consumed once stands for that pipeline"""
+        if isinstance(e, ast.Name) and self.root is not None:
+            binds = [n for n in ast.walk(self.root) if isinstance(n, (ast.Assign, ast.AnnAssign)) and n.value is not None and
+                     any(isinstance(t, ast.Name) and t.id == e.id for t in (n.targets if isinstance(n, ast.Assign) else [n.target]))]
+            loads = [n for n in ast.walk(self.root) if isinstance(n, ast.Name) and n.id == e.id and isinstance(n.ctx, ast.Load)]
+            if len(binds) == 1 and len(loads) == 1 and (isinstance(binds[0].value, ast.GeneratorExp) or self._is_pipeline(binds[0].value)):
+                return binds[0].value
+        return e
+
+    @staticmethod
+    def _callee(e: ast.expr) -> str:
+        if isinstance(e, ast.Call):
+            f = e.func
+            parts = []
+            while isinstance(f, ast.Attribute):
+                parts.append(f.attr)
+                f = f.value
+            if isinstance(f, ast.Name):
+                parts.append(f.id)
+            return ".".join(reversed(parts))
+        return ""
+
+    def _is_pipeline(self, e: ast.expr) -> bool:
+        c = self._callee(e)
+        return c.split(".")[-1] in ("map", "filter", "filterfalse") or c.endswith("chain.from_iterable")
+
+    def _needs_unfold(self, e: ast.expr) -> bool:
+        """the iterable expression (seen through single-use local names) runs package code with statement effects when it is consumed"""
+        seen = 0
+        stack = [e]
+        while stack and seen < 200:
+            x = self._deref(stack.pop())
+            seen += 1
+            if isinstance(x, ast.Call):
+                if self.generator_def(x) is not None or self.must_run_in_place(x):
+                    return True
+            stack.extend(ast.iter_child_nodes(x))
+        return False
+
+    def _apply(self, f: ast.expr, x: ast.expr) -> ast.expr:
+        c = self._callee(f)
+        if c.split(".")[-1] == "methodcaller" and isinstance(f, ast.Call) and len(f.args) >= 1 and isinstance(f.args[0], ast.Constant) and isinstance(f.args[0].value, str):
+            return ast.Call(func=ast.Attribute(value=x, attr=f.args[0].value, ctx=ast.Load()), args=list(f.args[1:]), keywords=list(f.keywords))
+        if c.split(".")[-1] == "attrgetter" and isinstance(f, ast.Call) and len(f.args) == 1 and isinstance(f.args[0], ast.Constant) and isinstance(f.args[0].value, str) \
+                and "." not in f.args[0].value:
+            return ast.Attribute(value=x, attr=f.args[0].value, ctx=ast.Load())
+        if isinstance(f, ast.Lambda) and len(f.args.args) == 1 and not f.args.vararg and not f.args.kwarg and not f.args.kwonlyargs and not f.args.defaults:
+            return _subst_names(f.body, {f.args.args[0].arg: x})
+        return ast.Call(func=f, args=[x], keywords=[])
+
+    def _apply2(self, f: ast.expr, a: ast.expr, b: ast.expr) -> ast.expr:
+        if isinstance(f, ast.Lambda) and len(f.args.args) == 2 and not f.args.vararg and not f.args.kwarg and not f.args.kwonlyargs and not f.args.defaults:
+            return _subst_names(f.body, {f.args.args[0].arg: a, f.args.args[1].arg: b})
+        return ast.Call(func=f, args=[a, b], keywords=[])
+
+    def _loops_for(self, e: ast.expr, body_fn, at: ast.AST, depth: int = 0) -> Optional[List[ast.stmt]]:
+        """statements that run ``body_fn(<element expression>)`` once per element of the iterable expression ``e``, in order"""
+        if depth > 6:
+            return None
+        e = self._deref(e)
+        c = self._callee(e)
+        out: Optional[List[ast.stmt]]
+        if isinstance(e, ast.Call) and c.endswith("chain.from_iterable") and len(e.args) == 1 and not e.keywords:
+            out = self._loops_for(e.args[0], lambda m: self._loops_for(m, body_fn, at, depth + 1) or [], at, depth + 1)
+        elif isinstance(e, ast.Call) and c.split(".")[-1] == "map" and len(e.args) == 2 and not e.keywords:
+            def mapped(x, f=e.args[0]):
+                t = self.tmp()
+                return [ast.Assign(targets=[ast.Name(id=t, ctx=ast.Store())], value=self._apply(f, x))] + body_fn(ast.Name(id=t, ctx=ast.Load()))
+            out = self._loops_for(e.args[1], mapped, at, depth + 1)
+        elif isinstance(e, ast.Call) and c.split(".")[-1] in ("filter", "filterfalse") and len(e.args) == 2 and not e.keywords and not (isinstance(e.args[0], ast.Constant) and e.args[0].value is None):
+            neg = c.split(".")[-1] == "filterfalse"
+
+            def kept(x, f=e.args[0]):
+                test = self._apply(f, x)
+                if neg:
+                    test = ast.UnaryOp(op=ast.Not(), operand=test)
+                return [ast.If(test=test, body=body_fn(x), orelse=[])]
+            out = self._loops_for(e.args[1], kept, at, depth + 1)
+        elif isinstance(e, ast.Call) and c in ("tqdm", "iter") and len(e.args) >= 1:
+            out = self._loops_for(e.args[0], body_fn, at, depth + 1)
+        elif isinstance(e, (ast.GeneratorExp, ast.ListComp)) and len(e.generators) == 1 and not e.generators[0].is_async:
+            # (a list comprehension produces all elements first; the order of the elements' own effects is the same)
+            g = e.generators[0]
+
+            def per(x, g=g, elt=e.elt):
+                inner = body_fn(elt)
+                for cnd in reversed(g.ifs):
+                    inner = [ast.If(test=cnd, body=inner, orelse=[])]
+                return [ast.Assign(targets=[g.target], value=x)] + inner
+            out = self._loops_for(g.iter, per, at, depth + 1)
+        else:
+            t = self.tmp()
+            body = body_fn(ast.Name(id=t, ctx=ast.Load()))
+            loop = ast.For(target=ast.Name(id=t, ctx=ast.Store()), iter=e, body=body or [ast.Pass()], orelse=[])
+            loop._qcl_plain = True      # already a plain loop over its iterable: not taken apart again
+            out = [loop]
+        if out is None:
+            return None
+        for n in out:
+            for m in ast.walk(n):
+                if not hasattr(m, "lineno"):
+                    ast.copy_location(m, at)
+            ast.fix_missing_locations(n)
+        return out
+
+    def _desugar_collect(self, st: ast.stmt, e: ast.expr) -> Optional[List[ast.stmt]]:
+        """``x = list(<pipeline>)`` / ``return list(<pipeline>)``  ->  the accumulator loop nest"""
+        if isinstance(st, ast.Return):
+            name = self.tmp()
+            tail: List[ast.stmt] = [ast.Return(value=ast.Name(id=name, ctx=ast.Load()))]
+        else:
+            tg = st.targets[0] if isinstance(st, ast.Assign) else st.target
+            if not isinstance(tg, ast.Name):
+                return None
+            name, tail = tg.id, []
+        head: List[ast.stmt] = [ast.Assign(targets=[ast.Name(id=name, ctx=ast.Store())], value=ast.List(elts=[], ctx=ast.Load()))]
+
+        def add(x):
+            return [ast.Expr(value=ast.Call(func=ast.Attribute(value=ast.Name(id=name, ctx=ast.Load()), attr="append", ctx=ast.Load()), args=[x], keywords=[]))]
+        nest = self._loops_for(e, add, st)
+        if nest is None:
+            return None
+        out = head + nest + tail
+        for n in out:
+            for m in ast.walk(n):
+                if not hasattr(m, "lineno"):
+                    ast.copy_location(m, st)
+            ast.fix_missing_locations(n)
+        return out
 
     # -- N9 -------------------------------------------------------------------------------------------
     def _iterator_while(self, st: ast.While) -> Optional[ast.For]:
@@ -389,6 +552,20 @@ class _Ctx:
             if any(isinstance(a, ast.Constant) and a.value is True for a in alts):
                 return ([], [])
             return ([ast.BoolOp(op=ast.Or(), values=alts)], [])
+        if isinstance(pat, ast.MatchSequence) and not isinstance(subj, ast.Tuple):
+            # a sequence pattern against a value: right length, then element by element (the subject is taken to be a list / tuple)
+            if any(isinstance(p2, ast.MatchStar) for p2 in pat.patterns):
+                return None
+            tests = [ast.Compare(left=ast.Call(func=ast.Name(id="len", ctx=ast.Load()), args=[subj], keywords=[]), ops=[ast.Eq()],
+                                 comparators=[ast.Constant(value=len(pat.patterns))])]
+            binds = []
+            for i, p2 in enumerate(pat.patterns):
+                r = self._pattern(p2, ast.Subscript(value=subj, slice=ast.Constant(value=i), ctx=ast.Load()))
+                if r is None:
+                    return None
+                tests += r[0]
+                binds += r[1]
+            return (tests, binds)
         if isinstance(pat, ast.MatchSequence):
             if not isinstance(subj, ast.Tuple) or len(subj.elts) != len(pat.patterns) or any(isinstance(p2, ast.MatchStar) for p2 in pat.patterns):
                 return None
@@ -422,18 +599,24 @@ class _Ctx:
         if not isinstance(it, ast.Call) or st.orelse:
             return None
         d = self.helper_def(it) or self.generator_def(it)
-        if d is None or not any(isinstance(n, ast.Yield) for n in ast.walk(d)):
+        if d is None or not any(isinstance(n, (ast.Yield, ast.YieldFrom)) for n in ast.walk(d)):
             return None
-        if any(isinstance(n, (ast.YieldFrom, ast.Return, ast.Try, ast.With)) for n in ast.walk(d)):
+        if any(isinstance(n, (ast.Try, ast.With)) for n in ast.walk(d)) or any(isinstance(n, ast.Return) and n.value is not None for n in ast.walk(d)):
             return None
-        if any(isinstance(n, (ast.Break, ast.Continue, ast.Return, ast.Yield)) for b in st.body for n in ast.walk(b)):
+        if any(isinstance(n, ast.Return) for n in ast.walk(d)):
+            return None   # an early ``return`` ends the generator: not a straight-line unfolding
+        if any(isinstance(n, (ast.Break, ast.Return, ast.Yield)) for b in st.body for n in ast.walk(b)):
             return None
+        if any(isinstance(n, ast.Continue) for b in st.body for n in ast.walk(b)) or any(isinstance(n, ast.Continue) for n in ast.walk(d)):
+            # ``continue`` in the consumer body / in the generator is only the same thing when every yield is the last statement of its loop body
+            if not _yields_are_tails(d):
+                return None
         # every yield must be an expression statement of its own
         for n in ast.walk(d):
             if isinstance(n, ast.Yield):
                 pass
-        ys = [n for n in ast.walk(d) if isinstance(n, ast.Expr) and isinstance(n.value, ast.Yield)]
-        if len(ys) != len([n for n in ast.walk(d) if isinstance(n, ast.Yield)]) or any(y.value.value is None for y in ys):
+        ys = [n for n in ast.walk(d) if isinstance(n, ast.Expr) and isinstance(n.value, (ast.Yield, ast.YieldFrom))]
+        if len(ys) != len([n for n in ast.walk(d) if isinstance(n, (ast.Yield, ast.YieldFrom))]) or any(y.value.value is None for y in ys):
             return None
         if any(isinstance(a, ast.Starred) for a in it.args) or any(k.arg is None for k in it.keywords) or d.args.vararg or d.args.kwarg:
             return None
@@ -491,6 +674,10 @@ class _Ctx:
                 if isinstance(s_, ast.Expr) and isinstance(s_.value, ast.Yield):
                     out.append(ast.Assign(targets=[st.target], value=rename(s_.value.value)))
                     out.extend(copy.deepcopy(st.body))
+                    continue
+                if isinstance(s_, ast.Expr) and isinstance(s_.value, ast.YieldFrom):
+                    # ``yield from E``: every element of E is handed to the consumer
+                    out.append(ast.For(target=copy.deepcopy(st.target), iter=rename(s_.value.value), body=copy.deepcopy(st.body), orelse=[]))
                     continue
                 if isinstance(s_, (ast.If, ast.For, ast.While)):
                     n2 = copy.copy(s_)
@@ -646,6 +833,23 @@ class _Ctx:
             ast.copy_location(n, st)
             ast.fix_missing_locations(n)
         return out
+
+
+def _yields_are_tails(d: ast.FunctionDef) -> bool:
+    """every ``yield`` is directly followed by ``continue`` or is the last statement of its block (then a ``continue`` of the consumer placed
+    at the yield, and a ``continue`` of the generator, both move on to the next element)"""
+    def block_ok(stmts, in_loop) -> bool:
+        for i, s_ in enumerate(stmts):
+            if isinstance(s_, ast.Expr) and isinstance(s_.value, (ast.Yield, ast.YieldFrom)):
+                nxt = stmts[i + 1] if i + 1 < len(stmts) else None
+                if not (nxt is None or isinstance(nxt, ast.Continue)):
+                    return False
+            for sub in ("body", "orelse"):
+                if isinstance(getattr(s_, sub, None), list) and not isinstance(s_, (ast.FunctionDef, ast.ClassDef)):
+                    if not block_ok(getattr(s_, sub), in_loop or isinstance(s_, (ast.For, ast.While))):
+                        return False
+        return True
+    return block_ok(d.body, False)
 
 
 def _subst_names(e: ast.AST, mp: Dict[str, ast.expr]) -> ast.AST:
